@@ -126,6 +126,14 @@ def check_C01(run):
         started = {}   # task -> list of start trace indices
         all_starts = [(ti, t) for ti, k, t, x in o.events if k == "start"]
         executed = {t2 for _, t2 in all_starts} | {t2 for _, kind, t2, _, _ in o.printed if kind == "running"}
+        # tasks that are part of this invocation's plan (executed, skipped or failed to launch): a path
+        # through them is an ordinary dependency path; only a path through a *pruned* (cached) task is
+        # the known planner gap
+        try:
+            planned, _, _err = o.model_plan()
+        except Exception:
+            planned = set()
+        executed = executed | planned | {t2 for _, kind, t2, _, _ in o.printed if kind == "skipping"}
         pairs = 0
         for ti, k, t, x in o.events:
             if k == "start":
@@ -938,10 +946,14 @@ def restore_violations(before, after, inv_code, killed, archive_rows, internal=N
             probs.append(("restore-reported-success-for-unreadable-archive", {}))
         else:
             for r in archive_rows:
+                rel = M.out_dir_rel(r[0], r[1])
                 if tuple(r) not in aset:
                     probs.append(("successful-restore-did-not-record-a-version", {"row": list(r)}))
-                elif after["tree"].get(M.out_dir_rel(r[0], r[1])) != ("d",):
+                elif after["tree"].get(rel) != ("d",):
                     probs.append(("successful-restore-recorded-version-without-directory", {"row": list(r)}))
+                elif rel in (before or {}).get("tree", {}) and tuple(r) not in bset and not killed:
+                    # never overwrites: the place was taken by something restore did not put there
+                    probs.append(("restore-succeeded-over-a-pre-existing-directory", {"dir": rel}))
     # existing version directories are never modified
     for r in rows_b:
         rel = M.out_dir_rel(r[0], r[1])
